@@ -136,7 +136,7 @@ struct HostEndian<T, std::enable_if_t<std::is_floating_point<T>::value>> {
     union {
       Integral value;
       T native;
-    } output{HostEndian<Integral>::FromLittle(input.data,
+    } output{HostEndian<Integral>::FromBig(input.data,
                                               std::make_index_sequence<N>{})};
     return output.native;
   }
@@ -153,7 +153,7 @@ struct HostEndian<T, std::enable_if_t<std::is_floating_point<T>::value>> {
     union {
       Integral value;
       T native;
-    } output{HostEndian<Integral>::FromBig(input.data,
+    } output{HostEndian<Integral>::FromLittle(input.data,
                                            std::make_index_sequence<N>{})};
     return output.native;
   }
